@@ -36,23 +36,36 @@ THEOREMS = [
     "IrVerif.Sort.C12_cycle_lifted",
     "IrVerif.Sort.C12_cycle_iff_lifted",
     "IrVerif.Sort.C12_cycle_no_change",
-    "IrVerif.Sort.C12_shared_raises",
+    "IrVerif.Sort.C12_order_independent",
+    "IrVerif.Sort.C12_pass_atomic",
+    "IrVerif.Sort.C12_pass_result",
     "IrVerif.Sort.C12_fixpoint_graph",
     "IrVerif.Sort.C12_fixpoint",
     "IrVerif.Sort.C12_deterministic",
-    "IrVerif.Sort.C12_stateless",
 ]
 ASSUMPTIONS = [
+    "Function.sort is `self._graph.sort()`: it is modelled as the same sortEffect on the function's graph; "
+    "TopologicalSortPass.call is modelled by passEffect (record the orders, sort main graph then functions, on "
+    "ValueError re-extend every recorded graph in its recorded order and re-raise: the code since fix D201, 1715aa4); "
+    "the correspondence requires the atomic state, a partially sorted model is a disagreement and an oracle failure",
+    "not theorems, by construction of the model: 'the result depends only on the current tree' (the model is a function "
+    "of it; the stateful build/sort/edit/sort correspondence is what checks the code for hidden state)",
     "heapq on (negative position, node) pairs with distinct positions is modelled as extract-maximum-position; "
     "dict insertion order and dict/set lookups by object identity are modelled by creation indices",
     "the object graph is a tree: every Graph object is the value of at most one attribute and node.graph is the "
     "graph whose node list contains the node (ownership consistency is property C01's subject); a Graph object "
-    "shared by two attributes is modelled by a derived branch (the sort raises, C12_shared_raises; differential only) "
+    "shared by two attributes is modelled by a derived branch of sortModel (the sort raises; NOT a theorem: a summary "
+    "derived in the model's doc comment, differential only) "
     "and excluded from all other theorems by hypothesis WF (distinct node ids / graph ids, asserted on every unshared "
     "case); a graph nested in itself makes RecursiveGraphIterator recurse forever and cannot be encoded",
     "a value is represented by what Graph.sort reads from it: input_value.producer()",
-    "C12_fixpoint* assume well-scoped graphs (a value is used only inside the graph of its producer or graphs "
-    "nested in it), as in the property's quantifier; ill-scoped graphs are covered by perm/respects/cycle only",
+    "C12_fixpoint* (stability: 'a graph already in order is left as it was') assume well-scoped graphs (a value is "
+    "used only inside the graph of its producer or graphs nested in it), as in the property's quantifier ('subgraphs "
+    "capturing values produced anywhere in ENCLOSING graphs'); on ill-scoped trees (a node using a value produced in a "
+    "sibling scope) the clause is false of the code — confirmed: g0=[Y{g2=[w]}, X, Z{g1=[u]}], u uses X, w uses u: every "
+    "graph is in order, yet g0 becomes [X,Y,Z] (corpus) — which is not claimed as a defect because such IR is not valid "
+    "ONNX (a subgraph may only refer to names of its own or enclosing scopes); there only perm/respects/cycle are "
+    "proved and checked",
     "reference attributes (value None) of type GRAPH/GRAPHS carry no graph: the model input skips them (defect D46, "
     "fixed in /repo by 31ed6b5; a TypeError on such an attribute is reported with signature ...:ref-graph-attr:TypeError)",
 ]
@@ -62,7 +75,7 @@ ASSUMPTIONS = [
 # graph spec : {"g": gid, "nin": k, "nodes": [node...]}          (nodes in their *initial* order)
 # node spec  : {"i": id, "nout": k, "in": [ref...], "attrs": [attr...]}
 # ref        : None | ["n", node id, output index] | ["gi", gid, index] | ["free", k]
-# attr       : ["int"] | ["g", graph] | ["gs", [graph...]] | ["refg"]   (in attribute dict order)
+# attr       : ["int"] | ["g", graph] | ["gs", [graph...]] | ["refg"] | ["refgs"]   (in attribute dict order)
 
 
 def walk_nodes(gs):
@@ -109,7 +122,7 @@ class SpecGen:
         nin = rng.randrange(0, 3)
         local = [("gi", gid, k) for k in range(nin)]
         nodes = []
-        for _ in range(rng.randrange(0 if depth else 1, self.max_nodes + 1)):
+        for _ in range(rng.randrange(0 if depth else max(1, self.max_nodes // 2), self.max_nodes + 1)):
             nid = next(self.nid)
             nout = rng.choice([1, 1, 1, 1, 2, 2, 3, 0])
             ins = []
@@ -205,20 +218,104 @@ def permute(rng, root, how):
                 ns[i], ns[j] = ns[j], ns[i]
 
 
+def gen_model_case(rng):
+    """a whole model for TopologicalSortPass: permuted main graph + 1..3 functions, often one of them cyclic"""
+    specs = []
+    k = rng.choice([2, 3, 3, 4])
+    cyclic_at = rng.randrange(k) if rng.random() < 0.6 else None
+    for j in range(k):
+        depth = rng.choice([0, 1, 1, 2])
+        sg = SpecGen(rng, depth, rng.choice([2, 3, 4, 6]), rng.choice([0.25, 0.5]), "dag")
+        root = sg.graph(0, [])
+        if j == cyclic_at:
+            add_edges(rng, root, rng.randrange(2, 6), ill=False)
+        permute(rng, root, rng.choice(["rev", "shuffle", "shuffle", "mixed", "id"]))
+        specs.append(root)
+    return {"entry": "model", "specs": specs, "spec": specs[0], "mode": "model", "perm": "mixed",
+            "variant": rng.randrange(4), "sub": rng.randrange(1 << 30), "shared": False, "steps": []}
+
+
+def do_model_case(case, part):
+    """TopologicalSortPass on a model with functions: EVERY graph of the model is snapshot (main graph,
+    every function body, all nested graphs); compared with `passEffect`, oracle = the English clauses."""
+    import onnx_ir as ir
+    from onnx_ir.passes.common.topological_sort import TopologicalSortPass
+
+    bs = [Built(spec, case["variant"], seed=case["sub"] + j) for j, spec in enumerate(case["specs"])]
+    funcs = [ir.Function("d", f"f{j}", graph=b.root, attributes=[]) for j, b in enumerate(bs[1:], start=1)]
+    model = ir.Model(bs[0].root, ir_version=10, functions=funcs)
+    before = [b.orders() for b in bs]
+    reqs = [b.encode(b.root) for b in bs]
+    trees = [[b.gidmap[id(g)] for g in tree_graphs(b, b.root)] for b in bs]
+    cyc = [flat_cycle(b, b.root) for b in bs]
+    try:
+        TopologicalSortPass()(model)
+        outcome = "ok"
+    except ValueError:
+        outcome = "raised"
+    except Exception as e:  # noqa: BLE001
+        outcome = "raised:" + type(e).__name__
+    after = [b.orders() for b in bs]
+    n_nodes = sum(len(v) for o in before for v in o.values())
+    part.case(
+        {"specs": case["specs"], "entry": "model"},
+        nontrivial=n_nodes >= 2,
+        sample={"graphs": reqs, "entry": "model", "outcome": outcome},
+        mode="model", entry="model", outcome=outcome.split(":")[0], functions=len(funcs),
+        model_cyclic_member=("none" if not any(cyc) else ("main" if cyc[0] else "function")),
+    )
+    rec = {"case": case}
+    sig = "TopologicalSortPass(model)"
+    if outcome.startswith("raised:"):
+        part.fail(f"{sig}:raises-{outcome[7:]}", f"pass raised {outcome[7:]}", rec)
+        return None
+    if outcome == "raised":
+        if not any(cyc):
+            part.fail(f"{sig}:raise-without-cycle", "ValueError although no graph of the model has a cycle", rec)
+        if after != before:
+            part.fail(
+                "TopologicalSortPass:model-partially-sorted-on-cycle",
+                "ValueError raised (a function or the main graph has a cycle) but graphs sorted earlier in the "
+                "same call keep their new order",
+                rec,
+            )
+    else:
+        if any(cyc):
+            part.fail(f"{sig}:cycle-not-raised", "a graph of the model has a dependency cycle but the pass returned", rec)
+        for b, bef, aft in zip(bs, before, after):
+            for g in tree_graphs(b, b.root):
+                gid = b.gidmap[id(g)]
+                if sorted(bef[gid]) != sorted(aft[gid]):
+                    part.fail(f"{sig}:nodes-moved", "a graph does not keep exactly its own nodes", rec)
+                bad = ordered(b, g)
+                if bad is not None:
+                    part.fail(f"{sig}:producer-after-consumer", f"producer {bad[0]} not before consumer {bad[1]}", rec)
+    r = {
+        "kind": "model",
+        "req": {"m": "sort.pass", "graphs": reqs},
+        "impl_raised": outcome == "raised",
+        "impl_after": [[[g, aft[g]] for g in tree] for aft, tree in zip(after, trees)],
+        "case": case,
+        "outcome": outcome,
+        "after": [{str(k): v for k, v in aft.items()} for aft in after],
+    }
+    return {"recs": [r], "outcome": [outcome], "after": [r["after"]]}
+
+
 def gen_case(rng, quick=True):
-    mode = rng.choice(["dag", "dag", "dag", "free", "free", "ill"])
+    mode = rng.choice(["dag", "dag", "dag", "dag", "dag", "free", "free", "ill"])
     depth = rng.choice([0, 1, 1, 2, 2, 3, 3])
-    max_nodes = rng.choice([2, 3, 4, 5, 6]) if depth else rng.choice([3, 5, 8, 12])
+    max_nodes = rng.choice([3, 4, 5, 6, 8]) if depth else rng.choice([4, 6, 8, 12, 16])
     sg = SpecGen(rng, depth, max_nodes, rng.choice([0.25, 0.4, 0.6]), mode)
     root = sg.graph(0, [])
     if mode == "free":
-        add_edges(rng, root, rng.randrange(1, 4), ill=False)
+        add_edges(rng, root, rng.randrange(1, 3), ill=False)
     elif mode == "ill":
         add_edges(rng, root, rng.randrange(1, 4), ill=True)
     if rng.random() < 0.04:  # a graph-typed reference attribute (function bodies may carry them)
         ns = list(walk_nodes(root))
         if ns:
-            rng.choice(ns)["attrs"].append(["refg"])
+            rng.choice(ns)["attrs"].append([rng.choice(["refg", "refgs"])])
     how = rng.choice(["id", "rev", "shuffle", "shuffle", "swap", "mixed", "mixed"])
     permute(rng, root, how)
     shared = False
@@ -259,6 +356,7 @@ class Built:
         import onnx_ir as ir
 
         self.ir = ir
+        self.ref_mismatch = False
         self.nid = {}  # id(node obj) -> spec id
         self.gidmap = {}  # id(graph obj) -> gid
         self.node = {}  # spec id -> node obj
@@ -316,8 +414,8 @@ class Built:
                 res.append(ir.AttrGraph(f"a{j}", self._mk_graph(a[1])))
             elif a[0] == "gs":
                 res.append(ir.AttrGraphs(f"a{j}", [self._mk_graph(sg) for sg in a[1]]))
-            elif a[0] == "refg":
-                res.append(ir.RefAttr(f"a{j}", "outer_attr", ir.AttributeType.GRAPH))
+            elif a[0] in ("refg", "refgs"):
+                res.append(ir.RefAttr(f"a{j}", "outer_attr", ir.AttributeType.GRAPH if a[0] == "refg" else ir.AttributeType.GRAPHS))
         return res
 
     def _mk_node(self, n, with_attrs):
@@ -366,8 +464,8 @@ class Built:
                     node.attributes.add(ir.AttrGraph(f"a{j}", self._mk_graph_late(a[1])))
                 elif a[0] == "gs":
                     node.attributes.add(ir.AttrGraphs(f"a{j}", [self._mk_graph_late(sg) for sg in a[1]]))
-                elif a[0] == "refg":
-                    node.attributes.add(ir.RefAttr(f"a{j}", "outer_attr", ir.AttributeType.GRAPH))
+                elif a[0] in ("refg", "refgs"):
+                    node.attributes.add(ir.RefAttr(f"a{j}", "outer_attr", ir.AttributeType.GRAPH if a[0] == "refg" else ir.AttributeType.GRAPHS))
         gr = ir.Graph(
             [self.vals[("gi", g["g"], k)] for k in range(g["nin"])],
             [],
@@ -380,11 +478,17 @@ class Built:
 
     # ---- reading the real objects (everything below looks only at onnx_ir objects)
     def sub_graphs(self, node):
-        """attribute graphs of a real node in attribute order; reference attributes (value None) skipped"""
+        """attribute graphs of a real node in attribute order; reference attributes skipped by the code's own
+        criterion `is_ref()`; that this coincides with "graph-typed attribute without a value" is cross-checked
+        (`ref_mismatch`)"""
         ir = self.ir
         res = []
         for attr in node.attributes.values():
-            if not isinstance(attr, ir.Attr) or attr.value is None:
+            if not isinstance(attr, ir.Attr):
+                continue
+            if attr.type in (ir.AttributeType.GRAPH, ir.AttributeType.GRAPHS) and attr.is_ref() != (attr.value is None):
+                self.ref_mismatch = True
+            if attr.is_ref() or attr.value is None:
                 continue
             if attr.type == ir.AttributeType.GRAPH:
                 res.append(attr.value)
@@ -687,6 +791,8 @@ def do_case(case, part):
     """build the real objects, then sort; for a stateful case keep editing the same objects and sorting again.
     Every sort is compared with the model applied to the structure as it is at that moment, and followed by
     the property oracle.  Returns one record per sort (None when the case ended early)."""
+    if case["entry"] == "model":
+        return do_model_case(case, part)
     b = Built(case["spec"], case["variant"], seed=case["sub"])
     root = pick_root(b, case)
     recs = []
@@ -722,6 +828,20 @@ def sort_step(b: Built, case, root, part, step, edits):
         impl_universe = [[b.nid[id(n)], b.gidmap[id(n.graph)]] for n in b.ir.traversal.RecursiveGraphIterator(root)]
     except Exception as e:  # noqa: BLE001
         impl_universe = "raised:" + type(e).__name__
+    if b.ref_mismatch:
+        part.disagree("a graph-typed attribute has is_ref() != (value is None): harness and code skip different attributes", {"case": case})
+    # the scenario the property singles out: a producer placed after the control-flow node whose body uses it
+    capture_after_owner = 0
+    for g in tree_graphs(b, root):
+        pos = {id(n): k for k, n in enumerate(g)}
+        for c in g:
+            for u in span_nodes(b, c):
+                if u is c:
+                    continue
+                for v in u.inputs:
+                    p = None if v is None else v.producer()
+                    if p is not None and p.graph is g and pos[id(p)] > pos[id(c)]:
+                        capture_after_owner += 1
     dupnodes = len({x[0] for x in pre_universe}) != len(pre_universe)  # a shared Graph object with nodes
     if (dupnodes or len(set(tree)) != len(tree)) and not case.get("shared"):
         part.disagree("encoding not well formed (duplicate node or graph id): hypothesis WF of the theorems", {"case": case})
@@ -744,6 +864,7 @@ def sort_step(b: Built, case, root, part, step, edits):
         shared_graph=("nodes-twice" if dupnodes else ("empty" if len(set(tree)) != len(tree) else "no")),
         fixpoint_clause=("checked" if ws and outcome == "ok" and any(pre_ordered.values()) else "n/a"),
         step=step,
+        capture_after_owner=min(capture_after_owner, 3),
     )
     if edits:
         part.count("edit=" + edits[-1].split("(")[0].split(" ")[0])
@@ -883,8 +1004,14 @@ def _chunk(args):
                 with time_limit(30):
                     r = do_case(case, part)
             except _Hang:  # retry once with a long limit: a loaded machine must not produce a finding
+                part.count("hang_retries", 1)
+                pr = Part()
                 with time_limit(150):
-                    r = do_case(case, Part())
+                    r = do_case(case, pr)
+                for f in pr["failures"]:  # findings of the retried run are kept
+                    part.fail(**f)
+                for d in pr["disagreements"]:
+                    part.disagree(**d)
         except _Hang:
             hangs += 1
             part.fail("sort:hang", "the real sort (or iterating its result) did not return within 150 s", {"case": case})
@@ -901,8 +1028,16 @@ def _chunk(args):
             try:
                 with time_limit(150):
                     r2 = do_case(case2, p2)
-            except (_Hang, Exception):  # noqa: BLE001
+            except _Hang:
                 r2 = None
+                part.fail("sort:hang", "the real sort of the re-allocated object graph did not return within 150 s", {"case": case2})
+            except Exception as e:  # noqa: BLE001
+                import traceback
+
+                r2 = None
+                part.disagree("harness error in the allocation-variant run " + type(e).__name__ + ": " + traceback.format_exc()[-400:], {"case": case2})
+            if r2 is None and not p2["failures"]:
+                part.disagree("allocation-variant run ended early although the first run did not", {"case": case2})
             if r2 is not None and (r2["outcome"] != r["outcome"] or r2["after"] != r["after"]):
                 part.fail(
                     "determinism:allocation-order",
@@ -920,10 +1055,25 @@ def check_cases(ctx: Ctx, cases: list) -> None:
     k = max(1, min(400, (len(cases) + 15) // 16))
     chunks = [(cases[i : i + k], ctx.pick(120, 600)) for i in range(0, len(cases), k)]
     results = pmap(_chunk, chunks)
-    recs = []
+    recs, mrecs = [], []
     for part, out in results:
         ctx.merge(part)
-        recs += out
+        recs += [r for r in out if r.get("kind") != "model"]
+        mrecs += [r for r in out if r.get("kind") == "model"]
+    skipped = ctx.dist.get("cases_skipped_time_budget", 0)
+    ctx.extra["cases_skipped_time_budget"] = ctx.extra.get("cases_skipped_time_budget", 0) + skipped
+    ctx.extra["hang_retries"] = ctx.dist.get("hang_retries", 0)
+    if skipped:
+        ctx.notes.append(f"{skipped} generated cases were NOT run: per-chunk time budget exhausted (pathologically slow real code or overloaded machine)")
+    for r, o in zip(mrecs, lean_batch_parallel([r["req"] for r in mrecs])):
+        # TopologicalSortPass on main graph + functions vs `passEffect` (model of call() with fix D201)
+        if o.get("raised") != r["impl_raised"]:
+            ctx.disagree("sort.pass: raised-vs-ok differs", r["case"], o.get("raised"), r["impl_raised"])
+        elif o.get("after") != r["impl_after"]:
+            what = "sort.pass: node orders after the pass differ (passEffect)"
+            if r["impl_raised"] and o.get("partial") == r["impl_after"]:
+                what += " — the pass is not atomic: graphs sorted before the failing one keep their new order (D201 regressed)"
+            ctx.disagree(what, r["case"], o.get("after"), r["impl_after"])
     reqs = [r["req"] for r in recs] + [r["ureq"] for r in recs] + [r["hreq"] for r in recs]
     outs = lean_batch_parallel(reqs)
     n = len(recs)
@@ -1026,6 +1176,8 @@ def run(ctx: Ctx) -> None:
     cases += exhaustive_small(ctx)
     for _ in range(ctx.pick(5000, 60000)):
         cases.append(gen_case(ctx.rng, ctx.quick))
+    for _ in range(ctx.pick(600, 6000)):
+        cases.append(gen_model_case(ctx.rng))
     check_cases(ctx, cases)
     relink_cases(ctx)
 
